@@ -126,8 +126,8 @@ def run_native(binpath, project_dir, args, schedule=None, timeout=60, extra_env=
     env = dict(os.environ, ZX_LOG=logf.name)
     schedf = None
     if schedule is not None:
-        schedf = tempfile.NamedTemporaryFile('w', prefix='zxsched-', suffix='.txt', delete=False, dir=os.environ.get('VERIF_SCRATCH', '/var/tmp'))
-        schedf.write('\n'.join(schedule) + '\n')
+        schedf = tempfile.NamedTemporaryFile('wb', prefix='zxsched-', suffix='.txt', delete=False, dir=os.environ.get('VERIF_SCRATCH', '/var/tmp'))
+        schedf.write(('\n'.join(schedule) + '\n').encode('utf-8', 'surrogateescape'))
         schedf.close()
         env['ZX_SCHEDULE'] = schedf.name
     if extra_env:
@@ -138,7 +138,7 @@ def run_native(binpath, project_dir, args, schedule=None, timeout=60, extra_env=
             rc, out, err = r.returncode, r.stdout, r.stderr
         except Exception as e:   # pragma: no cover
             rc, out, err = -1, '', str(e)
-        log = open(logf.name).read().splitlines()
+        log = open(logf.name, errors='surrogateescape').read().splitlines()
     finally:
         os.unlink(logf.name)
         if schedf:
